@@ -387,7 +387,10 @@ def run(tier, seed):
     # time patterns (literals and macros, alone and in `or` lists, in loops): execution must not alter them
     TP = [('define lunch 12:00 time at lunch wait time at lunch or 13:30 wait time at lunch on all', 'tp-macro-reused'),
           ('repeat 2 begin time at 8:00 or 9:30 or 1*:15 on all end time at 8:00 off all', 'tp-loop'),
-          ('define a 7:00 define b 2*:*5 time at a or b on all time at b or a off all time at a wait', 'tp-two-macros')]
+          ('define a 7:00 define b 2*:*5 time at a or b on all time at b or a off all time at a wait', 'tp-two-macros'),
+          # names looked up at run time: macros, variables and registers in named printf fields, before and after they are set
+          ('define limit 75 define who "Top" printf "{limit} for {who} {x} {hue}" assign x 3 hue 20 printf "{limit} {x} {hue}" print limit on all', 'names-at-run-time'),
+          ('define f with p begin printf "{p} {q} {m}" assign q p end define m 4 f 1 assign q 9 f 2 print q', 'names-in-routines')]
     for text, tag in TP:
         class _TextCase(scripth.Case):
             pass
